@@ -523,6 +523,15 @@ def correspondence(ctx):
                      drv.ask("seq", enc_cfg(cfg), enc_scheds(ss), *[enc_op(o) for o in seq])))
         ctx.case(("seq", cfg, repr(ss), repr(seq)), sample={"op": "seq", "lists": cfg, "schedules": repr(ss), "ops": repr(seq)})
         ctx.count(f"setter histories of length {len(seq)}")
+    # (4b) Experiment.copy(): re-validation through the constructor, same lists and schedules
+    for cfg in [c for c in CONFIGS if c[0] > 0][::2]:
+        good = [sc for sc in pool(cfg) if expected(lens_of(cfg), [sc])[0] == "ok"]
+        for ss in ([], good[:1], good):
+            e = Experiment(schedules=ss, **none_lists(cfg))
+            got = exp_outcome(lambda: e.copy())
+            st = exp_state(e.copy()) if got[0] == "ok" else None
+            pend.append(("copy", (cfg, ss), (got, st), drv.ask("copy", enc_cfg(cfg), enc_scheds(ss))))
+            ctx.case(("copy", cfg, repr(ss)), nontrivial=bool(ss), sample={"op": "copy", "lists": cfg, "schedules": repr(ss)})
     # (5) calc_prob_dist on accepted schedules (None placeholders, composition typing, shape)
     for o, lists, ms, s in calc_cases(ctx):
         e = Experiment(schedules=[s], **{KW[k]: v for k, v in lists.items()})
@@ -574,6 +583,13 @@ def correspondence(ctx):
                 mres = [model_outcome(x) for x in parts[0].split("/")]
                 mlens = tuple(0 if t == "-" else len(t) for t in parts[1].split())
                 ok = mres == res and mlens == lens and parts[2] == enc_scheds(scheds)
+        elif op == "copy":
+            got, st = impl
+            parts = line.split(" # ")
+            if got[0] == "ok" and len(parts) == 3 and parts[0] == "ok":
+                ok = tuple(0 if t == "-" else len(t) for t in parts[1].split()) == st[0] and parts[2] == enc_scheds(st[1])
+            else:
+                ok = got[0] != "ok" and model_outcome(line) == got
         elif op == "calc":
             t = line.split()
             if impl[0] == "ok":
@@ -647,6 +663,19 @@ def oracle(ctx, volume=1):
                             rp("seq", lists=cfg, schedules=ss, ops=seq[:k + 1]))
                 break
         ctx.case(("o-seq", cfg, repr(ss), repr(seq)))
+    # (b2) copy(): an accepted experiment can be copied; the copy holds equal lists and schedules in new list objects
+    for cfg in [c for c in CONFIGS if c[0] > 0][::2]:
+        good = [sc for sc in pool(cfg) if expected(lens_of(cfg), [sc])[0] == "ok"]
+        for ss in ([], good[:1], good):
+            e = Experiment(schedules=ss, **none_lists(cfg))
+            r = rp("copy", lists=cfg, schedules=ss)
+            ctx.case(("o-copy", cfg, repr(ss)), nontrivial=bool(ss))
+            try:
+                c2 = e.copy()
+            except Exception as ex:  # noqa
+                ctx.violate("C20/copy/raises", f"copy of an accepted experiment raises {type(ex).__name__}: {ex}", r); continue
+            if exp_state(c2) != exp_state(e) or c2.schedules is e.schedules or any(getattr(c2, KW[k]) is getattr(e, KW[k]) for k in KINDS):
+                ctx.violate("C20/copy/state", f"copy holds {exp_state(c2)} / shares list objects; original {exp_state(e)}", r)
     # (c) accepted schedules: executable iff no None on the path; distribution = Born rule, normalised
     for o, lists, ms, s in calc_cases(ctx):
         e = Experiment(schedules=[s], **{KW[k]: v for k, v in lists.items()})
